@@ -1,6 +1,7 @@
 package main
 
 import (
+	"sync"
 	"encoding/json"
 	"fmt"
 	"os"
@@ -48,12 +49,34 @@ func (r *Report) finish() (int, error) {
 	nObl, nDis := 0, 0
 	var violations []string
 	var knownLines []string
+	var pendIdx []int
+	var pendFn []func() string
+	encMu.Lock()
 	solverMs := map[string]int64{}
 	var samples []interface{}
 	replayDir := filepath.Join(verifDir, "replays", r.Prop.ID)
 	os.RemoveAll(replayDir)
 
 	sort.SliceStable(r.All, func(i, j int) bool { return r.All[i].O.Name < r.All[j].O.Name })
+	// recorded findings: class predicates first (sequential), then the solver work in parallel
+	works := map[int]*knownWork{}
+	for i := range r.All {
+		ob := r.All[i].O
+		if ob.Kind == "cover" || ob.Res.Status == "unsat" || ob.NoFinding {
+			continue
+		}
+		if kf := known.match(r.Prop.ID, ob.Name); kf != nil {
+			works[i] = r.knownPrep(r.All[i].E, ob, kf)
+		}
+	}
+	{
+		var wg sync.WaitGroup
+		for _, w := range works {
+			wg.Add(1)
+			go func(w *knownWork) { defer wg.Done(); r.knownSolve(w) }(w)
+		}
+		wg.Wait()
+	}
 	for i := range r.All {
 		ob := r.All[i].O
 		e := r.All[i].E
@@ -91,8 +114,12 @@ func (r *Report) finish() (int, error) {
 			kf = nil // clauses used as lemmas are never weakened by a finding
 		}
 		if kf != nil {
-			ok, note := r.checkKnown(e, ob, kf)
+			ok, note, pend := r.checkKnown(works[i])
 			if ok {
+				if pend != nil {
+					pendIdx = append(pendIdx, len(evs))
+					pendFn = append(pendFn, pend)
+				}
 				nDis++ // discharged outside the recorded class
 				ev.Result = "unsat-outside-known-class"
 				ev.Note = note
@@ -114,6 +141,21 @@ func (r *Report) finish() (int, error) {
 		violations = append(violations, line)
 		ev.Note = strings.TrimSpace(ev.Note + " obligation failed: " + ob.Res.Status)
 		evs = append(evs, ev)
+	}
+	encMu.Unlock()
+	if len(pendFn) > 0 {
+		var wg sync.WaitGroup
+		sem := make(chan struct{}, 6)
+		for k := range pendFn {
+			wg.Add(1)
+			go func(k int) {
+				defer wg.Done()
+				sem <- struct{}{}
+				defer func() { <-sem }()
+				evs[pendIdx[k]].Note += pendFn[k]()
+			}(k)
+		}
+		wg.Wait()
 	}
 	// fixed entries: nothing suppressed; findings whose defect is gone print nothing.
 	for _, m := range r.EncErrs {
@@ -185,7 +227,7 @@ func (r *Report) finish() (int, error) {
 		"violations":  len(violations),
 	}
 	evDir := filepath.Join(verifDir, "evidence")
-	if r.Opts.repo != "/repo" {
+	if r.Opts.repo != "/repo" || r.Opts.only != "" {
 		// runs against a scratch copy (mutation tests, seeded changes) never
 		// touch the evidence of the real tree
 		evDir = filepath.Join(verifDir, "work", "evidence-scratch")
@@ -314,16 +356,31 @@ func (ks *knownSet) match(prop, obl string) *knownFinding {
 	return nil
 }
 
-// checkKnown: the obligation failed and a finding is recorded for it. Prove
-// the obligation outside the finding's class (goal ∨ class) and check the
-// class is still a real failure (class ∧ ¬goal satisfiable).
-func (r *Report) checkKnown(e *Enc, ob *Obligation, kf *knownFinding) (bool, string) {
+// A recorded finding is checked in three steps: knownPrep evaluates the class
+// predicate in the obligation's environment (sequential, touches the encoder),
+// knownSolve proves the obligation outside the class (goal ∨ class) and checks
+// the class is still a real failure (class ∧ ¬goal satisfiable) — solver work
+// only, run in parallel — and checkKnown turns the result into a verdict.
+type knownWork struct {
+	e       *Enc
+	ob      *Obligation
+	kf      *knownFinding
+	err     string
+	out, in *Obligation
+	extra   []string
+	res2    SolveResult
+}
+
+func (r *Report) knownPrep(e *Enc, ob *Obligation, kf *knownFinding) *knownWork {
+	w := &knownWork{e: e, ob: ob, kf: kf}
 	if ob.Env == nil {
-		return false, "obligation carries no environment for a class predicate"
+		w.err = "obligation carries no environment for a class predicate"
+		return w
 	}
 	ex, err := parseExprCached(kf.Class)
 	if err != nil {
-		return false, err.Error()
+		w.err = err.Error()
+		return w
 	}
 	nerr := len(e.errs)
 	nl := len(e.lines)
@@ -337,11 +394,33 @@ func (r *Report) checkKnown(e *Enc, ob *Obligation, kf *knownFinding) (bool, str
 	if len(e.errs) > nerr {
 		msg := e.errs[len(e.errs)-1]
 		e.errs = e.errs[:nerr]
-		return false, "class predicate does not evaluate: " + msg
+		w.err = "class predicate does not evaluate: " + msg
+		return w
 	}
-	out := &Obligation{Name: ob.Name + ".outside-known-class", Kind: ob.Kind, Func: ob.Func, Upto: ob.Upto, Reach: ob.Reach, Goal: or(ob.Goal, cls), Expect: "unsat", Extra: extra}
-	tmp := oblResult{O: out, E: e}
+	w.extra = extra
+	w.out = &Obligation{Name: ob.Name + ".outside-known-class", Kind: ob.Kind, Func: ob.Func, Upto: ob.Upto, Reach: ob.Reach, Goal: or(ob.Goal, cls), Expect: "unsat", Extra: extra}
+	w.in = &Obligation{Name: ob.Name + ".inside-known-class", Upto: ob.Upto, Reach: ob.Reach, Goal: or(ob.Goal, not(cls)), Expect: "sat", Extra: extra}
+	return w
+}
+
+func (r *Report) knownSolve(w *knownWork) {
+	if w.err != "" {
+		return
+	}
+	tmp := oblResult{O: w.out, E: w.e}
 	decide(&tmp, r.Opts, r.Work)
+	if w.out.Res.Status != "unsat" {
+		return
+	}
+	// non-vacuity of the class is a sanity check, not a proof step: half the budget
+	w.res2 = solve(r.Work, w.in.Name, w.e.query(w.in, false), (r.Opts.timeout+1)/2, r.Opts.seed, "")
+}
+
+func (r *Report) checkKnown(w *knownWork) (bool, string, func() string) {
+	if w.err != "" {
+		return false, w.err, nil
+	}
+	e, ob, kf, out, in := w.e, w.ob, w.kf, w.out, w.in
 	res := out.Res
 	if res.Status != "unsat" {
 		// report the failure outside the class: later model extraction and
@@ -349,14 +428,13 @@ func (r *Report) checkKnown(e *Enc, ob *Obligation, kf *knownFinding) (bool, str
 		ob.Goal = out.Goal
 		ob.Extra = out.Extra
 		ob.Res = res
-		return false, "a failure outside the recorded class exists (" + res.Status + ")"
+		return false, "a failure outside the recorded class exists (" + res.Status + ")", nil
 	}
-	in := &Obligation{Name: ob.Name + ".inside-known-class", Upto: ob.Upto, Reach: ob.Reach, Goal: or(ob.Goal, not(cls)), Expect: "sat", Extra: extra}
-	res2 := solve(r.Work, in.Name, e.query(in, false), r.Opts.timeout, r.Opts.seed, "")
+	res2 := w.res2
 	if res2.Status == "unsat" {
-		return false, "recorded class no longer fails, but the obligation does"
+		return false, "recorded class no longer fails, but the obligation does", nil
 	}
-	replayNote := ""
+	var pending func() string
 	if !r.Opts.noReplay {
 		// the finding is re-confirmed on the real code on every run where a replay exists
 		in2 := *ob
@@ -369,15 +447,23 @@ func (r *Report) checkKnown(e *Enc, ob *Obligation, kf *knownFinding) (bool, str
 		npath := strings.TrimSuffix(path, ".json") + ".known-finding.json"
 		os.Rename(path, npath)
 		if res2.Status == "sat" || fileExists(filepath.Join(verifDir, "replay", sanitize(ob.Name)+".go")) {
-			if r.replay(npath, e, &in2) {
-				replayNote = "; replayed on the real code: confirmed (" + npath + ")"
-			} else {
-				replayNote = "; replay on the real code did not confirm (" + npath + ")"
+			// replays of known findings run after the proof phase, in parallel
+			pending = func() string {
+				encMu.Lock()
+				defer encMu.Unlock()
+				if r.replay(npath, e, &in2) {
+					return "; replayed on the real code: confirmed (" + npath + ")"
+				}
+				return "; replay on the real code did not confirm (" + npath + ")"
 			}
 		}
 	}
-	return true, fmt.Sprintf("proved outside class {%s} by %s in %dms; class still fails (%s)%s", kf.Class, res.Solver, res.Ms, res2.Status, replayNote)
+	return true, fmt.Sprintf("proved outside class {%s} by %s in %dms; class still fails (%s)", kf.Class, res.Solver, res.Ms, res2.Status), pending
 }
+
+// encMu serialises everything that touches an Enc after the proof phase;
+// runHarness releases it while the go test process runs.
+var encMu sync.Mutex
 
 func fileExists(p string) bool {
 	_, err := os.Stat(p)
